@@ -309,6 +309,9 @@ func rulesC08(c *Ctx) {
 				if o := wr.ObjOf(x); o != nil && o == wr.VarFromCall(c.FnObj(pM, "", "protocolVersionFromContext"), 0) {
 					rec = true
 				}
+				if ce, isC := ast.Unparen(x).(*ast.CallExpr); isC && wr.IsCallTo(ce, c.FnObj(pM, "", "protocolVersionFromContext")) {
+					rec = true // the version asked for in place
+				}
 			}
 			c.Check(rec, "Write:append-gate#"+itoa(nGate), wr, a.E, "the append is conditional only on eventStore != nil and protocol version < 2026-07-28 (found %s)", a.String())
 		}
